@@ -146,6 +146,10 @@ def gen_find_extrema_kwargs(rng, fs, f_lo, allow_nseconds=True, allow_none=True)
         kw['filter_kwargs'] = {'n_cycles': int(rng.choice([2, 3, 4, 5, 7]))}
     elif r < 0.75 and allow_nseconds:
         kw['filter_kwargs'] = {'n_seconds': float(rng.choice([2, 3, 4])) / f_lo}
+        if rng.random() < 0.25:
+            kw['filter_kwargs']['n_cycles'] = None          # "not given", written out
+    elif r < 0.82:
+        kw['filter_kwargs'] = None                          # the documented default of find_extrema, written out
     if rng.random() < 0.6:
         kw['boundary'] = int(rng.choice([0, 1, 5, 7, int(fs / f_lo)]))
         if rng.random() < 0.2:
